@@ -189,3 +189,25 @@ add("C18", "exact-SVD reference on planted low-rank stacks over stack chunkings 
     "Stacks with more than 500 features take the randomised solver whose seed is drawn from numpy's global RNG; the "
     "planted spectral gap makes its error far below the 2e-3 tolerance.",
     "DESIGN.md section 4 C18")
+
+add("C19", "reference interpreter for generated pipeline expression trees + algebraic/metamorphic laws",
+    "Random expression trees (depth <= 3 quick, <= 5 thorough) over provider leaves, float converters, the four arithmetic "
+    "operators with pipelines and scalars on both sides, unary minus, root-level comparisons and @ composition are "
+    "evaluated by acryo and by a reference interpreter that applies the Python operator to the leaf outputs; law cases "
+    "check composition/associativity and result types, currying of provider/converter functions with 0/1/2+ positional "
+    "arguments and output validation, scale covariance of seven nm-parameterised converters and from_gaussian, rescaling "
+    "providers, the Gaussian provider formula, extensivity/anti-extensivity and [0,1] range of the mask converters, and "
+    "loader.normalize_template/mask/input at the loader's scale.",
+    "Leaf pipelines are trusted inside trees (the algebra is judged there); comparisons only at the root (arithmetic on "
+    "boolean arrays is numpy's semantics). radius/scale is kept away from integers so one ulp cannot flip a ceil.",
+    "DESIGN.md section 4 C19")
+
+add("C20", "planted-particle ground truth (bijection oracle) + numpy-vs-chunked equality under scheduler matrix",
+    "Images with 3-12 well separated analytic particles at known sub-pixel positions (blobs matched to LoG/DoG; an "
+    "asymmetric particle in searched rotations for ZNCC template matching), scales {0.5,1,2.3}, dtypes "
+    "float32/float64/uint8/int16 are picked from the numpy array and from dask arrays in six chunkings (halves, irregular, "
+    "slabs thinner than the overlap, pencils, cubes, single) under synchronous/threaded/shuffled schedulers: picks must "
+    "be one-to-one with the particles (1 px), carry the planted rotation, and positions and scores of the chunked run "
+    "must equal those of the numpy run.",
+    "Noise-free (LoG/DoG) or weak-noise (template matching) images; particle spacing >= 6 sigma / template size + 6.",
+    "DESIGN.md section 4 C20")
